@@ -4,10 +4,16 @@
   ever regenerates it. `Kmip.C05.gen_gating_matches` compares the `version=` annotations of the current Go
   tree (KmipModel.Gen.Schema, regenerated on every run) with it, entry for entry and in both directions.
 
-  An entry is (structure key, element tag, major, minor). The key does not depend on Go identifiers nor on
-  the struct ids of Gen.Schema (which change with the walk order of the extractor):
+  An entry is (structure key, element tag, occurrence, major, minor). The key does not depend on Go identifiers
+  nor on the struct ids of Gen.Schema (which change with the walk order of the extractor):
     * a structure with a default tag is keyed by that tag (tags.go);
     * an operation payload (no tag of its own) is keyed by 1000000 + 2·operation + (1 if response else 0).
+  `occurrence` makes the entry POSITION-AWARE: it is the number of earlier elements of the same structure that
+  carry the same tag (0 everywhere except Authentication, where the first Credential — occurrence 0 — exists in
+  every version and only the additional ones — occurrence 1 — are introduced by KMIP 1.2).
+
+  SINGLE SOURCE: the Go harness does not carry a copy of this table; its `gate` engine asks the compiled
+  model for it (driver command `gate.pinned`, lean/Driver/Plan.lean), i.e. it reads this very definition.
 
   How it was produced: once, on 2026-09-29, from the Go annotations, then REVIEWED entry by entry against
   Appendix B of DESIGN.md (61 elements, 20 structures — identical) and against the KMIP 1.1 / 1.2 / 1.3 / 1.4
@@ -23,80 +29,81 @@
 namespace Kmip.Pinned
 
 /-- message headers and authentication. -/
-def introducedHeaders : List (Nat × Nat × Nat × Nat) := [
-  (0x420077, 0x420105, 1, 4) /- RequestHeader . ClientCorrelationValue -/,
-  (0x420077, 0x420106, 1, 4) /- RequestHeader . ServerCorrelationValue -/,
-  (0x420077, 0x4200D3, 1, 2) /- RequestHeader . AttestationCapableIndicator -/,
-  (0x420077, 0x4200C7, 1, 2) /- RequestHeader . AttestationType -/,
-  (0x42000C, 0x420023, 1, 2) /- Authentication . AdditionalCredential -/,
-  (0x42007A, 0x4200C8, 1, 2) /- ResponseHeader . Nonce -/,
-  (0x42007A, 0x4200C7, 1, 2) /- ResponseHeader . AttestationType -/,
-  (0x42007A, 0x420105, 1, 4) /- ResponseHeader . ClientCorrelationValue -/,
-  (0x42007A, 0x420106, 1, 4) /- ResponseHeader . ServerCorrelationValue -/
+def introducedHeaders : List (Nat × Nat × Nat × Nat × Nat) := [
+  (0x420077, 0x420105, 0, 1, 4) /- RequestHeader . ClientCorrelationValue -/,
+  (0x420077, 0x420106, 0, 1, 4) /- RequestHeader . ServerCorrelationValue -/,
+  (0x420077, 0x4200D3, 0, 1, 2) /- RequestHeader . AttestationCapableIndicator -/,
+  (0x420077, 0x4200C7, 0, 1, 2) /- RequestHeader . AttestationType -/,
+  (0x42000C, 0x420023, 1, 1, 2) /- Authentication . AdditionalCredential -/,
+  (0x42007A, 0x4200C8, 0, 1, 2) /- ResponseHeader . Nonce -/,
+  (0x42007A, 0x4200C7, 0, 1, 2) /- ResponseHeader . AttestationType -/,
+  (0x42007A, 0x420105, 0, 1, 4) /- ResponseHeader . ClientCorrelationValue -/,
+  (0x42007A, 0x420106, 0, 1, 4) /- ResponseHeader . ServerCorrelationValue -/
 ]
 
 /-- structures with a tag of their own. -/
-def introducedStructs : List (Nat × Nat × Nat × Nat) := [
-  (0x420047, 0x4200A3, 1, 1) /- KeyWrappingSpecification . EncodingOption -/,
-  (0x42002B, 0x4200AE, 1, 2) /- CryptographicParameters . DigitalSignatureAlgorithm -/,
-  (0x42002B, 0x420028, 1, 2) /- CryptographicParameters . CryptographicAlgorithm -/,
-  (0x42002B, 0x4200C5, 1, 2) /- CryptographicParameters . RandomIV -/,
-  (0x42002B, 0x4200CD, 1, 2) /- CryptographicParameters . IVLength -/,
-  (0x42002B, 0x4200CE, 1, 2) /- CryptographicParameters . TagLength -/,
-  (0x42002B, 0x4200CF, 1, 2) /- CryptographicParameters . FixedFieldLength -/,
-  (0x42002B, 0x4200D2, 1, 2) /- CryptographicParameters . InvocationFieldLength -/,
-  (0x42002B, 0x4200D0, 1, 2) /- CryptographicParameters . CounterLength -/,
-  (0x42002B, 0x4200D1, 1, 2) /- CryptographicParameters . InitialCounterValue -/,
-  (0x42002B, 0x420100, 1, 4) /- CryptographicParameters . SaltLength -/,
-  (0x42002B, 0x420101, 1, 4) /- CryptographicParameters . MaskGenerator -/,
-  (0x42002B, 0x420102, 1, 4) /- CryptographicParameters . MaskGeneratorHashingAlgorithm -/,
-  (0x42002B, 0x420103, 1, 4) /- CryptographicParameters . PSource -/,
-  (0x42002B, 0x420104, 1, 4) /- CryptographicParameters . TrailerField -/,
-  (0x4200F7, 0x4200F9, 1, 4) /- CapabilityInformation . BatchUndoCapability -/,
-  (0x4200F7, 0x4200FA, 1, 4) /- CapabilityInformation . BatchContinueCapability -/,
-  (0x420046, 0x4200A3, 1, 1) /- KeyWrappingData . EncodingOption -/,
-  (0x420034, 0x420042, 1, 1) /- Digest . KeyFormatType -/
+def introducedStructs : List (Nat × Nat × Nat × Nat × Nat) := [
+  (0x420047, 0x4200A3, 0, 1, 1) /- KeyWrappingSpecification . EncodingOption -/,
+  (0x42002B, 0x4200AE, 0, 1, 2) /- CryptographicParameters . DigitalSignatureAlgorithm -/,
+  (0x42002B, 0x420028, 0, 1, 2) /- CryptographicParameters . CryptographicAlgorithm -/,
+  (0x42002B, 0x4200C5, 0, 1, 2) /- CryptographicParameters . RandomIV -/,
+  (0x42002B, 0x4200CD, 0, 1, 2) /- CryptographicParameters . IVLength -/,
+  (0x42002B, 0x4200CE, 0, 1, 2) /- CryptographicParameters . TagLength -/,
+  (0x42002B, 0x4200CF, 0, 1, 2) /- CryptographicParameters . FixedFieldLength -/,
+  (0x42002B, 0x4200D2, 0, 1, 2) /- CryptographicParameters . InvocationFieldLength -/,
+  (0x42002B, 0x4200D0, 0, 1, 2) /- CryptographicParameters . CounterLength -/,
+  (0x42002B, 0x4200D1, 0, 1, 2) /- CryptographicParameters . InitialCounterValue -/,
+  (0x42002B, 0x420100, 0, 1, 4) /- CryptographicParameters . SaltLength -/,
+  (0x42002B, 0x420101, 0, 1, 4) /- CryptographicParameters . MaskGenerator -/,
+  (0x42002B, 0x420102, 0, 1, 4) /- CryptographicParameters . MaskGeneratorHashingAlgorithm -/,
+  (0x42002B, 0x420103, 0, 1, 4) /- CryptographicParameters . PSource -/,
+  (0x42002B, 0x420104, 0, 1, 4) /- CryptographicParameters . TrailerField -/,
+  (0x4200F7, 0x4200F9, 0, 1, 4) /- CapabilityInformation . BatchUndoCapability -/,
+  (0x4200F7, 0x4200FA, 0, 1, 4) /- CapabilityInformation . BatchContinueCapability -/,
+  (0x420046, 0x4200A3, 0, 1, 1) /- KeyWrappingData . EncodingOption -/,
+  (0x420034, 0x420042, 0, 1, 1) /- Digest . KeyFormatType -/
 ]
 
 /-- operation payloads: key = 1000000 + 2·op + response. -/
-def introducedPayloads : List (Nat × Nat × Nat × Nat) := [
-  (1000016, 0x4200D4, 1, 3) /- Locate request (op 0x8) . OffsetItems -/,
-  (1000016, 0x4200AC, 1, 1) /- Locate request (op 0x8) . ObjectGroupMember -/,
-  (1000017, 0x4200D5, 1, 3) /- Locate response (op 0x8) . LocatedItems -/,
-  (1000020, 0x4200F8, 1, 4) /- Get request (op 0xA) . KeyWrapType -/,
-  (1000049, 0x4200A4, 1, 1) /- Query response (op 0x18) . ExtensionInformation -/,
-  (1000049, 0x4200C7, 1, 2) /- Query response (op 0x18) . AttestationType -/,
-  (1000049, 0x4200D9, 1, 3) /- Query response (op 0x18) . RNGParameters -/,
-  (1000049, 0x4200EB, 1, 3) /- Query response (op 0x18) . ProfileInformation -/,
-  (1000049, 0x4200DF, 1, 3) /- Query response (op 0x18) . ValidationInformation -/,
-  (1000049, 0x4200F7, 1, 3) /- Query response (op 0x18) . CapabilityInformation -/,
-  (1000049, 0x4200F6, 1, 3) /- Query response (op 0x18) . ClientRegistrationMethod -/,
-  (1000062, 0x4200D6, 1, 3) /- Encrypt request (op 0x1F) . CorrelationValue -/,
-  (1000062, 0x4200D7, 1, 3) /- Encrypt request (op 0x1F) . InitIndicator -/,
-  (1000062, 0x4200D8, 1, 3) /- Encrypt request (op 0x1F) . FinalIndicator -/,
-  (1000062, 0x4200FE, 1, 4) /- Encrypt request (op 0x1F) . AuthenticatedEncryptionAdditionalData -/,
-  (1000063, 0x4200D6, 1, 3) /- Encrypt response (op 0x1F) . CorrelationValue -/,
-  (1000063, 0x4200FF, 1, 4) /- Encrypt response (op 0x1F) . AuthenticatedEncryptionTag -/,
-  (1000064, 0x4200D6, 1, 3) /- Decrypt request (op 0x20) . CorrelationValue -/,
-  (1000064, 0x4200D7, 1, 3) /- Decrypt request (op 0x20) . InitIndicator -/,
-  (1000064, 0x4200D8, 1, 3) /- Decrypt request (op 0x20) . FinalIndicator -/,
-  (1000064, 0x4200FE, 1, 4) /- Decrypt request (op 0x20) . AuthenticatedEncryptionAdditionalData -/,
-  (1000064, 0x4200FF, 1, 4) /- Decrypt request (op 0x20) . AuthenticatedEncryptionTag -/,
-  (1000065, 0x4200D6, 1, 3) /- Decrypt response (op 0x20) . CorrelationValue -/,
-  (1000066, 0x420107, 1, 4) /- Sign request (op 0x21) . DigestedData -/,
-  (1000066, 0x4200D6, 1, 3) /- Sign request (op 0x21) . CorrelationValue -/,
-  (1000066, 0x4200D7, 1, 3) /- Sign request (op 0x21) . InitIndicator -/,
-  (1000066, 0x4200D8, 1, 3) /- Sign request (op 0x21) . FinalIndicator -/,
-  (1000067, 0x4200D6, 1, 3) /- Sign response (op 0x21) . CorrelationValue -/,
-  (1000068, 0x420107, 1, 4) /- SignatureVerify request (op 0x22) . DigestedData -/,
-  (1000068, 0x4200D6, 1, 3) /- SignatureVerify request (op 0x22) . CorrelationValue -/,
-  (1000068, 0x4200D7, 1, 3) /- SignatureVerify request (op 0x22) . InitIndicator -/,
-  (1000068, 0x4200D8, 1, 3) /- SignatureVerify request (op 0x22) . FinalIndicator -/,
-  (1000069, 0x4200D6, 1, 3) /- SignatureVerify response (op 0x22) . CorrelationValue -/
+def introducedPayloads : List (Nat × Nat × Nat × Nat × Nat) := [
+  (1000016, 0x4200D4, 0, 1, 3) /- Locate request (op 0x8) . OffsetItems -/,
+  (1000016, 0x4200AC, 0, 1, 1) /- Locate request (op 0x8) . ObjectGroupMember -/,
+  (1000017, 0x4200D5, 0, 1, 3) /- Locate response (op 0x8) . LocatedItems -/,
+  (1000020, 0x4200F8, 0, 1, 4) /- Get request (op 0xA) . KeyWrapType -/,
+  (1000049, 0x4200A4, 0, 1, 1) /- Query response (op 0x18) . ExtensionInformation -/,
+  (1000049, 0x4200C7, 0, 1, 2) /- Query response (op 0x18) . AttestationType -/,
+  (1000049, 0x4200D9, 0, 1, 3) /- Query response (op 0x18) . RNGParameters -/,
+  (1000049, 0x4200EB, 0, 1, 3) /- Query response (op 0x18) . ProfileInformation -/,
+  (1000049, 0x4200DF, 0, 1, 3) /- Query response (op 0x18) . ValidationInformation -/,
+  (1000049, 0x4200F7, 0, 1, 3) /- Query response (op 0x18) . CapabilityInformation -/,
+  (1000049, 0x4200F6, 0, 1, 3) /- Query response (op 0x18) . ClientRegistrationMethod -/,
+  (1000062, 0x4200D6, 0, 1, 3) /- Encrypt request (op 0x1F) . CorrelationValue -/,
+  (1000062, 0x4200D7, 0, 1, 3) /- Encrypt request (op 0x1F) . InitIndicator -/,
+  (1000062, 0x4200D8, 0, 1, 3) /- Encrypt request (op 0x1F) . FinalIndicator -/,
+  (1000062, 0x4200FE, 0, 1, 4) /- Encrypt request (op 0x1F) . AuthenticatedEncryptionAdditionalData -/,
+  (1000063, 0x4200D6, 0, 1, 3) /- Encrypt response (op 0x1F) . CorrelationValue -/,
+  (1000063, 0x4200FF, 0, 1, 4) /- Encrypt response (op 0x1F) . AuthenticatedEncryptionTag -/,
+  (1000064, 0x4200D6, 0, 1, 3) /- Decrypt request (op 0x20) . CorrelationValue -/,
+  (1000064, 0x4200D7, 0, 1, 3) /- Decrypt request (op 0x20) . InitIndicator -/,
+  (1000064, 0x4200D8, 0, 1, 3) /- Decrypt request (op 0x20) . FinalIndicator -/,
+  (1000064, 0x4200FE, 0, 1, 4) /- Decrypt request (op 0x20) . AuthenticatedEncryptionAdditionalData -/,
+  (1000064, 0x4200FF, 0, 1, 4) /- Decrypt request (op 0x20) . AuthenticatedEncryptionTag -/,
+  (1000065, 0x4200D6, 0, 1, 3) /- Decrypt response (op 0x20) . CorrelationValue -/,
+  (1000066, 0x420107, 0, 1, 4) /- Sign request (op 0x21) . DigestedData -/,
+  (1000066, 0x4200D6, 0, 1, 3) /- Sign request (op 0x21) . CorrelationValue -/,
+  (1000066, 0x4200D7, 0, 1, 3) /- Sign request (op 0x21) . InitIndicator -/,
+  (1000066, 0x4200D8, 0, 1, 3) /- Sign request (op 0x21) . FinalIndicator -/,
+  (1000067, 0x4200D6, 0, 1, 3) /- Sign response (op 0x21) . CorrelationValue -/,
+  (1000068, 0x420107, 0, 1, 4) /- SignatureVerify request (op 0x22) . DigestedData -/,
+  (1000068, 0x4200D6, 0, 1, 3) /- SignatureVerify request (op 0x22) . CorrelationValue -/,
+  (1000068, 0x4200D7, 0, 1, 3) /- SignatureVerify request (op 0x22) . InitIndicator -/,
+  (1000068, 0x4200D8, 0, 1, 3) /- SignatureVerify request (op 0x22) . FinalIndicator -/,
+  (1000069, 0x4200D6, 0, 1, 3) /- SignatureVerify response (op 0x22) . CorrelationValue -/
 ]
 
-/-- (structure key, element tag, major, minor): the element exists from protocol version major.minor on. -/
-def introduced : List (Nat × Nat × Nat × Nat) :=
+/-- (structure key, element tag, occurrence, major, minor): the element exists from protocol version
+    major.minor on. -/
+def introduced : List (Nat × Nat × Nat × Nat × Nat) :=
   introducedHeaders ++ introducedStructs ++ introducedPayloads
 
 end Kmip.Pinned
